@@ -323,10 +323,34 @@ def g_project(rng, idx):
     # the targets may live in sub/meson.build, reached through subdir('sub')
     insub = rng.random() < 0.2
     ROOT = L
+    files = {}
+    tdir, xsrc, xkind = '', [], None
     if insub:
         ROOT.append("subdir('sub')")
         L = [rng.choice(['# sub', 'subvar = n + 1', ''])]
-    tfile = 'sub/meson.build' if insub else 'meson.build'
+        tdir = 'sub/'
+    elif not shared and rng.random() < 0.25:
+        # the first target gets sources through a variable defined in ANOTHER build file: files() in the
+        # parent file or in a sibling directory (paths relative to that file), or plain strings / nested
+        # lists (relative to the directory of the target)
+        xkind = rng.choice(['files', 'files', 'libfiles', 'strs', 'nested'])
+        tdir = 'app/'
+        if xkind == 'files':
+            ROOT.append(rng.choice(["common = files('c0.c', 'c1.c')", "common = files(['c0.c', 'c1.c'])", "common = files('c0.c',\n  'c1.c')  # shared"]))
+            xsrc = ['c0.c', 'c1.c']
+        elif xkind == 'libfiles':
+            ROOT.append("subdir('lib')")
+            files['lib/meson.build'] = rng.choice(["common = files('c0.c', 'c1.c')\n", "# lib\ncommon = files(['c0.c', 'c1.c'])"])
+            xsrc = ['lib/c0.c', 'lib/c1.c']
+        elif xkind == 'strs':
+            ROOT.append("common = ['c0.c', 'c1.c']")
+            xsrc = ['app/c0.c', 'app/c1.c']
+        else:
+            ROOT.append("common = [['c0.c'], 'c1.c']")
+            xsrc = ['app/c0.c', 'app/c1.c']
+        ROOT.append("subdir('app')")
+        L = [rng.choice(['# app', ''])]
+    tfile = tdir + 'meson.build'
     if shared:
         L.append("shared = ['sh.c']")
     for i in range(nt):
@@ -355,6 +379,11 @@ def g_project(rng, idx):
         elif form == 'nested':
             srcs = ['a%d.c' % i, 'b%d.c' % i]
             sarg = "['a%d.c'], 'b%d.c'" % (i, i)
+        if xkind and i == 0:
+            form = 'xvar'
+            pre = [p_ for p_ in pre if p_.startswith(('if ', '  if '))]
+            srcs = ['a0.c']
+            sarg = rng.choice(["common, 'a0.c'", "'a0.c', common", "[common, 'a0.c']"])
         elif form == 'arrx':
             pre.append(ind + "more%d = ['m%d.c']" % (i, i))
             sarg = '[' + ', '.join(["'%s'" % srcs[0], 'more%d' % i] + ["'%s'" % x for x in srcs[1:]]) + ']'
@@ -388,10 +417,9 @@ def g_project(rng, idx):
         if rng.random() < 0.3:
             L.append(rng.choice(['', '# between targets', "msg%d = 'done %d'" % (i, i)]))
         targets.append({'name': name, 'var': var, 'srcs': srcs, 'form': form, 'kws': [k for k, _ in kws], 'extra': extra, 'in_if': in_if,
-                        'file': tfile})
-    files = {}
-    if insub:
-        files['sub/meson.build'] = '\n'.join(L) + ('\n' if rng.random() < 0.8 else '')
+                        'file': tfile, 'dir': tdir, 'xsrc': xsrc if (xkind and i == 0) else []})
+    if tdir:
+        files[tfile] = '\n'.join(L) + ('\n' if rng.random() < 0.8 else '')
         L = ROOT
     if rng.random() < 0.5:
         L.append(rng.choice(["y = 1 # end", "message('x'.format())", "summary({'a' : a})"]))
@@ -411,8 +439,10 @@ def g_scenario(rng, meta):
     steps = []
     info = ['target', tid, 'info']
     # paths on the command line are relative to the source root
-    sp = (lambda f: 'sub/' + f) if tg.get('file', '').startswith('sub/') else (lambda f: f)
+    sp = lambda f: tg.get('dir', '') + f
     newf = [sp(f) for f in rng.sample(['new.c', 'zz.c', 'aa.c', "it's.c", 'sub dir/x.c', 'bé.c', 'N10.c', 'n9.c'], rng.randint(1, 2))]
+    if tg.get('xsrc') and rng.random() < 0.5:
+        newf = [os.path.dirname(tg['xsrc'][0]) + ('/' if os.path.dirname(tg['xsrc'][0]) else '') + f for f in rng.sample(['new.c', 'zz.c', "it's.c"], rng.randint(1, 2))]
     if k < 0.3:
         steps.append((info, {'op': 'info', 'target': tg['name']}))
         if rng.random() < 0.5:
@@ -426,6 +456,8 @@ def g_scenario(rng, meta):
     elif k < 0.45:
         own = [x for x in tg['srcs'] if x != 'sh.c']
         gone = [sp(f) for f in (own if (tg['form'] in ('mixed', 'nested') and rng.random() < 0.7) else [rng.choice(own)])]
+        if tg.get('xsrc') and rng.random() < 0.6:
+            gone = [rng.choice(tg['xsrc'])]          # a source that arrives through the variable of the other build file
         steps.append((info, {'op': 'info', 'target': tg['name']}))
         steps.append((['target', tid, 'rm'] + gone, {'op': 'src_rm', 'target': tg['name'], 'files': gone}))
         steps.append((info, {'op': 'info', 'target': tg['name'], 'expect_removed': gone}))
@@ -502,6 +534,8 @@ def g_scenario(rng, meta):
     for _, e_ in steps:
         if 'target' in e_ and e_['op'] not in ('target_add',) and e_.get('func') != 'project':
             e_.setdefault('file', tg['file'])
+            if tg.get('xsrc') and e_['op'] in ('src_add', 'src_rm'):
+                e_['anyfile'] = True        # the list that carries the source may be in the other build file
     return steps
 
 
@@ -1269,7 +1303,8 @@ def run(ctx):
         i, ch = chunk_i
         d = os.path.join(scratch, 'w%d' % i)
         os.makedirs(d, exist_ok=True)
-        return run_impl(ADAPTER, {'projects': [{'files': c['files'], 'steps': c['steps']} for c in ch], 'scratch': d}, timeout=3000)['projects']
+        return run_impl(ADAPTER, {'projects': [{'files': c['files'], 'steps': c['steps'], 'relto': len(c['files']) > 1 or (hash(c['files']['meson.build']) % 3 == 0)}
+                                               for c in ch], 'scratch': d}, timeout=3000)['projects']
     outs = pmap(work, list(enumerate(chunks)))
     lap('rewrite_projects')
     results = [r for o in outs for r in o]
@@ -1305,6 +1340,10 @@ def run(ctx):
             nsteps += 1
             opcount[exp['op']] = opcount.get(exp['op'], 0) + 1
             fkey = exp.get('file', 'meson.build')
+            if exp.get('anyfile'):
+                chg = [f_ for f_ in before_files if st['files'].get(f_) != before_files[f_]]
+                if len(chg) == 1:
+                    fkey = chg[0]
             before = before_files.get(fkey, '')
             after = st['files'].get(fkey, '')
             for f_ in before_files:
@@ -1345,16 +1384,22 @@ def run(ctx):
                 if st['rc'] == 0 and srcs is not None:
                     prev = infos[0] if 'expect_same_as' in exp else None
                     base = lambda p: p.split('/')[-1]
+                    npth = lambda p: os.path.normpath(p).replace('\\', '/')
+                    outside = [p_ for p_ in srcs + (ext or []) if npth(p_).startswith('..') or os.path.isabs(p_)]
+                    if outside and not any(npth(f).startswith('..') for f in exp.get('expect_added', []) + exp.get('expect_extra_added', [])):
+                        ctx.violation('C17:cli:info:source-outside-the-project', 'after the commands so far on\n%s\ninfo reports %s: outside the source tree'
+                                      % (before[:1200], outside), replay_obj)
                     if 'expect_added' in exp and len(infos) >= 2 and infos[-2][0] is not None:
-                        if not (set(infos[-2][0]) <= set(srcs) and set(base(f) for f in exp['expect_added']) <= set(base(f) for f in srcs)):
+                        if set(npth(p_) for p_ in srcs) != set(npth(p_) for p_ in infos[-2][0]) | set(npth(f) for f in exp['expect_added']):
                             ctx.violation('C17:cli:src_add:info-does-not-report-it', 'after adding %s to\n%s\ninfo reports sources %s (before: %s)'
                                           % (exp['expect_added'], before[:1200], srcs, infos[-2][0]), replay_obj)
                     if 'expect_removed' in exp and len(infos) >= 2 and infos[-2][0] is not None:
-                        if set(base(f) for f in exp['expect_removed']) & set(base(f) for f in srcs) or not set(srcs) <= set(infos[-2][0]):
+                        if set(npth(p_) for p_ in srcs) != set(npth(p_) for p_ in infos[-2][0]) - set(npth(f) for f in exp['expect_removed']) \
+                                or not set(npth(f) for f in exp['expect_removed']) <= set(npth(p_) for p_ in infos[-2][0]):
                             ctx.violation('C17:cli:src_rm:info-does-not-report-it', 'after removing %s from\n%s\ninfo reports sources %s (before: %s)'
                                           % (exp['expect_removed'], before[:1200], srcs, infos[-2][0]), replay_obj)
                     if 'expect_extra_added' in exp and ext is not None:
-                        if not set(base(f) for f in exp['expect_extra_added']) <= set(base(f) for f in ext):
+                        if not set(npth(f) for f in exp['expect_extra_added']) <= set(npth(p_) for p_ in ext):
                             ctx.violation('C17:cli:extra_add:info-does-not-report-it', 'after adding extra files %s to\n%s\ninfo reports %s'
                                           % (exp['expect_extra_added'], before[:1200], ext), replay_obj)
                     if prev is not None and prev[0] is not None and (set(prev[0]) != set(srcs) or set(prev[1] or []) != set(ext or [])):
@@ -1384,12 +1429,27 @@ def run(ctx):
             if want.lower() != got.lower() and len(ctx.disagreements) < 200:
                 ctx.disagreements.append({'case': [c_[0], c_[1]], 'implementation': want, 'model': got})
     dist['edited_option_lists_vs_model'] = len(mcases)
+    # Rewriter.get_relto against the model (Rewrite/Edits.v: relto; theorems C17_relto_*): which build file's
+    # directory the strings of a node are relative to, for every node the sources of every target flow through
+    rcases, rexp = [], []
+    for c, res in zip(plist, results):
+        for enc, ans in (res[0].get('relto') or [] if res else []):
+            if enc == 'EXC':
+                continue
+            rcases.append(('relto', enc))
+            rexp.append(ans)
+    if built and rcases:
+        for c_, want, got in zip(rcases, rexp, ctx.run_model(rcases)):
+            ctx.count(('relto', tuple(c_[1])), nontrivial=True)
+            if want != got and len(ctx.disagreements) < 200:
+                ctx.disagreements.append({'case': [c_[0], c_[1]], 'implementation': want, 'model': got})
+    dist['get_relto_answers_vs_model'] = len(rcases)
     lap('judge_projects')
     ctx.cov['traces_validated_against_impl'] += nsteps
     dist.update({'projects': len(plist), 'rewrite_steps': nsteps, 'steps_by_operation': opcount, 'steps_with_nonzero_exit': failed_cmds,
                  'projects_the_rewriter_could_not_analyse': n_unanalysable})
     # a sample through the real command line (a new process per command): same files as in-process
-    ncli = 40 if thorough else 6
+    ncli = 40 if thorough else 4
     mism = 0
     cli_sample = list(zip(plist, results))[:ncli] + [x for x in zip(plist, results) if len(x[0]['files']) > 1][:(8 if thorough else 2)]
     for c, res in cli_sample:
